@@ -95,12 +95,7 @@ Theorem C19_unsafe_sites_refuted : forall s, In s (unsafe_sites sites) ->
 Proof. exact unsafe_sites_refuted. Qed.
 
 (* non-vacuity: the hypotheses are satisfiable by non-trivial instances, and the consumers compute *)
-Definition ex_params : params :=
-  mk_params (fun e => 10 * fst e + snd e) (fun e => 100 - fst e) (fun e => snd e =? 7)
-            (fun e => Z.abs (fst e - 5)) (fun a e => Z.max a (snd e)) 0.
-Definition ex_l : list entry := [(3, 7); (9, 1); (7, 4); (1, 9)].
-Definition ex_l' : list entry := [(1, 9); (7, 4); (3, 7); (9, 1)].
-
+(* (ex_params, ex_l, ex_l' are defined in Proofs/OrderSitesOk.v: four entries, keys 3 9 7 1, and a rotation of them) *)
 Example C19_ex_hyps : step_commutes ex_params /\ NoDup (map fst ex_l) /\ NoDup (map (span ex_params) ex_l)
                       /\ Permutation ex_l ex_l'.
 Proof. exact ex_hyps. Qed.
@@ -120,7 +115,7 @@ Example C19_ex_sorted : consumer ex_params CollectThenSort ex_l = OList [19; 37;
 Proof. exact ex_values. Qed.
 
 (* the inventory is not empty and the audited table really classifies hash iterations (not only name clashes) *)
-Example C19_ex_inventory : (10 <=? Z.of_nat (length sites)) = true
+Example C19_ex_inventory : (5 <=? Z.of_nat (length sites)) = true
   /\ existsb (fun s => shape_eqb (classification s) CollectHash) sites = true
   /\ existsb (fun s => shape_eqb (classification s) AnyAll) sites = true.
 Proof. exact ex_inventory. Qed.
